@@ -145,10 +145,10 @@ F6 == {Struct([i \in 1..Len(AllKinds) |-> Fld(i, AllKinds[i])]),
 RECURSIVE DeepStruct(_)
 DeepStruct(d) == IF d = 0 THEN Leaf("i8", <<1>>) ELSE Struct(<<Fld(1, DeepStruct(d - 1))>>)
 RECURSIVE DeepList(_)
-DeepList(d) == IF d = 0 THEN Leaf("i8", <<1>>) ELSE List(TTypeOf(DeepList(d - 1)), <<DeepList(d - 1)>>)
+DeepList(d) == IF d = 0 THEN Leaf("i8", <<1>>) ELSE List(IF d = 1 THEN T_I8 ELSE T_LIST, <<DeepList(d - 1)>>)
 RECURSIVE DeepMap(_)
 DeepMap(d) == IF d = 0 THEN Leaf("i8", <<1>>)
-              ELSE Map(T_I8, TTypeOf(DeepMap(d - 1)), << <<Leaf("i8", <<d % 256>>), DeepMap(d - 1)>> >>)
+              ELSE Map(T_I8, IF d = 1 THEN T_I8 ELSE T_MAP, << <<Leaf("i8", <<d % 256>>), DeepMap(d - 1)>> >>)
 
 \* large payloads around the zero-copy threshold T (4096) and multi-byte varint lengths
 BigLens == {4095, 4096, 4097, 16383, 16384}
